@@ -228,7 +228,7 @@ class Parser:
         if word == "created_at":
             self.take()
             op = self.take("op")[1]
-            if op not in (">=", "<"):
+            if op not in (">=", "<", "=", "<=", ">"):
                 raise Unsupported("created_at %s" % op)
             return ("ts", op, self.take("num")[1])
         raise Unsupported("unexpected identifier %r" % tok[1])
@@ -272,7 +272,9 @@ def evaluate(node, row, env):
         return False
     if k == "ts":
         bound = _val(node[2], env)
-        return row["created_at"] >= bound if node[1] == ">=" else row["created_at"] < bound
+        ts, op = row["created_at"], node[1]
+        return (ts >= bound if op == ">=" else ts < bound if op == "<" else ts == bound if op == "=" else
+                ts <= bound if op == "<=" else ts > bound)
     if k == "tag":
         name = _val(node[1], env)
         values = [_val(v, env) for v in node[2]]
